@@ -39,6 +39,10 @@ Rd(id, same) ==
 \* the stream ends exactly after the last element
 RdEof == ~eof /\ readN = written /\ eof' = TRUE /\ UNCHANGED <<written, readN>>
 
+\* a request or response handed out earlier, looked at again after later elements were read, is
+\* still what was written (interleaved frames are documented as reused by the reader: not claimed)
+Still(id, same) == id >= 1 /\ id <= readN /\ same /\ UNCHANGED fvars
+
 \* a read error on a well-formed stream is never acceptable
 RdErr == FALSE /\ UNCHANGED fvars
 
